@@ -30,6 +30,38 @@ class StepLimit(BaseException):
     """The run exceeded its step cap."""
 
 
+def pack_schedule(segments: list) -> str:
+    """An explicit schedule as one hex string: 6 bytes per segment (thread, steps, ends-with-exit).
+    One string instead of thousands of small lists, so that a replay request disturbs the child's
+    small-object heap -- and with it id()-dependent orders inside fpy2 -- as little as possible."""
+    import struct
+    return b''.join(struct.pack('<BIB', e[0], min(e[1], 0xFFFFFFFF), 1 if len(e) > 2 and e[2] == 'x' else 0) for e in segments).hex()
+
+
+class _Packed:
+    """Read-only view of a schedule given either as a list of [thread, steps(, 'x')] or packed."""
+
+    def __init__(self, schedule):
+        import struct
+        self._unpack = struct.Struct('<BIB').unpack_from
+        if isinstance(schedule, str):
+            self._buf = bytes.fromhex(schedule)
+            self._n = len(self._buf) // 6
+            self._list = None
+        else:
+            self._list = list(schedule)
+            self._n = len(self._list)
+
+    def __len__(self):
+        return self._n
+
+    def __getitem__(self, k):
+        if self._list is not None:
+            return self._list[k]
+        t, n, x = self._unpack(self._buf, 6 * k)
+        return (t, n, 'x') if x else (t, n)
+
+
 class Scheduler:
     def __init__(self, nthreads: int, rng: random.Random | None, *, trace_prefixes: tuple[str, ...],
                  mean_quantum: int = 400, opcode_files: tuple[str, ...] = (), hot_names: frozenset = frozenset(),
@@ -51,7 +83,7 @@ class Scheduler:
         self.holds = 0
         self.held: dict[int, int] = {}           # thread -> global step until which it is not chosen (seeded mode only)
         self.replay = schedule is not None
-        self.schedule_in = list(schedule) if schedule is not None else None
+        self.schedule_in = _Packed(schedule) if schedule is not None else None
         self.sched_pos = 0
         self.max_steps = max_steps
         self.record_locations = record_locations
@@ -123,6 +155,8 @@ class Scheduler:
                 t = self.schedule_in[nxt][0]
                 if t in cands:
                     return t
+                if t == i and i is not None and self.alive[i]:
+                    return None      # the recorded run kept the baton here (everybody else was held back)
             return cands[0]
         # a held thread stays parked while anybody else can run: this stretches a window that is
         # one line wide (between two stores, say) over whole operations of the other threads
